@@ -5,6 +5,7 @@ package main
 import (
 	"fmt"
 	"go/ast"
+	"go/constant"
 	"go/token"
 	"go/types"
 	"regexp"
@@ -41,6 +42,9 @@ func checkC02(ctx *Ctx, r *Report) {
 	c02SortedSearchSelfTest(ctx, r)
 	c02TypedListLiterals(ctx, r)
 	c02GuardChainAgreement(ctx, r)
+	c02PythonEscapeLast(ctx, r)
+	c08ResolvesToConstraints(ctx, r)
+	c02GoQualifiedIdentifiers(ctx, r)
 }
 
 // kindConsts: the constants of ast.Kind / ast.ScalarKind.
@@ -1390,3 +1394,239 @@ func c02GuardChainAgreement(ctx *Ctx, r *Report) {
 // predicates of ast.Type that are exactly `Kind == K`
 var kindOfPredicateExact = map[string]string{"IsStruct": "struct", "IsEnum": "enum", "IsScalar": "scalar", "IsArray": "array", "IsMap": "map", "IsRef": "ref",
 	"IsDisjunction": "disjunction", "IsIntersection": "intersection", "IsComposableSlot": "composable_slot", "IsConstantRef": "constant_ref"}
+
+// c02PythonEscapeLast: a Python identifier is safe only if the reserved-word test is made on the text that is written.
+// formatIdentifier / formatFunctionName must therefore end in the escape: the expression they return is a call of a
+// function of the package that tests its own parameter with isReservedPythonKeyword — any transformation applied after it
+// (snake-casing, trimming of `$` / `_`) can produce a reserved word again (`From` → `from`, `$in` → `in`).
+func c02PythonEscapeLast(ctx *Ctx, r *Report) {
+	p := ctx.Pkg("internal/jennies/python")
+	if p == nil {
+		r.Undecided("anchor lost: internal/jennies/python")
+		return
+	}
+	info := p.TypesInfo
+	kw := ctx.LookupFunc("internal/jennies/python", "isReservedPythonKeyword")
+	if kw == nil {
+		r.Undecided("anchor lost: python.isReservedPythonKeyword")
+		return
+	}
+	testsOwnParam := func(fn *types.Func) bool {
+		fd, _ := ctx.DeclOf(fn)
+		if fd == nil || fd.Body == nil || fd.Type.Params.NumFields() != 1 || len(fd.Type.Params.List[0].Names) != 1 {
+			return false
+		}
+		param := info.Defs[fd.Type.Params.List[0].Names[0]]
+		ok := false
+		ast.Inspect(fd.Body, func(m ast.Node) bool {
+			if c, isCall := m.(*ast.CallExpr); isCall && callee(info, c) == kw && len(c.Args) == 1 {
+				if id, isID := ast.Unparen(c.Args[0]).(*ast.Ident); isID && objOf(info, id) == param {
+					ok = true
+				}
+			}
+			return true
+		})
+		return ok
+	}
+	n := 0
+	for _, name := range []string{"formatIdentifier", "formatFunctionName"} {
+		fn := ctx.LookupFunc("internal/jennies/python", name)
+		fd, _ := ctx.DeclOf(fn)
+		if fd == nil {
+			r.Undecided("anchor lost: python.%s", name)
+			continue
+		}
+		ast.Inspect(fd.Body, func(m ast.Node) bool {
+			rs, ok := m.(*ast.ReturnStmt)
+			if !ok || len(rs.Results) != 1 {
+				return true
+			}
+			n++
+			last := ""
+			if c, ok := ast.Unparen(rs.Results[0]).(*ast.CallExpr); ok {
+				if f := callee(info, c); f != nil && f.Pkg() == p.Types && testsOwnParam(f) {
+					last = f.Name()
+				}
+			}
+			r.Check(last != "", "skeleton/python-escape-last", "python."+name+" result", rs.Pos(), "the last transformation is the reserved-word escape ("+last+")",
+				fmt.Sprintf("python.%s returns %s: the reserved-word test is not the last transformation, so the text that is written can be a Python keyword again (`From` → `from`, `$in` → `in`): the generated module does not compile while the run succeeds", name, exprString(rs.Results[0])))
+			return true
+		})
+	}
+	r.Count("results of the python identifier formatters", n)
+	r.Floor("results of the python identifier formatters", 2)
+	c02EscapeLastIn(ctx, r, "internal/jennies/typescript", "isReservedTypescriptKeyword", []string{"formatIdentifier"})
+	c02EscapeLastIn(ctx, r, "internal/jennies/golang", "isReservedGoKeyword", []string{"formatArgName", "formatVarName"})
+	c02EscapeLastIn(ctx, r, "internal/jennies/java", "isReservedJavaKeyword", []string{"formatArgName", "formatFieldName"})
+}
+
+// c02EscapeLastIn: the same obligation for the other languages that have a reserved-word table.
+func c02EscapeLastIn(ctx *Ctx, r *Report, rel, kwName string, formatters []string) {
+	p := ctx.Pkg(rel)
+	kw := ctx.LookupFunc(rel, kwName)
+	if p == nil || kw == nil {
+		r.Undecided("anchor lost: %s.%s", rel, kwName)
+		return
+	}
+	info := p.TypesInfo
+	lang := rel[strings.LastIndex(rel, "/")+1:]
+	testsOwnParam := func(fn *types.Func) bool {
+		fd, _ := ctx.DeclOf(fn)
+		if fd == nil || fd.Body == nil || fd.Type.Params.NumFields() != 1 || len(fd.Type.Params.List[0].Names) != 1 {
+			return false
+		}
+		param := info.Defs[fd.Type.Params.List[0].Names[0]]
+		ok := false
+		ast.Inspect(fd.Body, func(m ast.Node) bool {
+			if c, isCall := m.(*ast.CallExpr); isCall && callee(info, c) == kw && len(c.Args) == 1 {
+				if id, isID := ast.Unparen(c.Args[0]).(*ast.Ident); isID && objOf(info, id) == param {
+					ok = true
+				}
+			}
+			return true
+		})
+		return ok
+	}
+	for _, name := range formatters {
+		fn := ctx.LookupFunc(rel, name)
+		fd, _ := ctx.DeclOf(fn)
+		if fd == nil {
+			r.Undecided("anchor lost: %s.%s", lang, name)
+			continue
+		}
+		ast.Inspect(fd.Body, func(m ast.Node) bool {
+			rs, ok := m.(*ast.ReturnStmt)
+			if !ok || len(rs.Results) != 1 {
+				return true
+			}
+			last := ""
+			if c, ok := ast.Unparen(rs.Results[0]).(*ast.CallExpr); ok {
+				if f := callee(info, c); f != nil && f.Pkg() == p.Types && testsOwnParam(f) {
+					last = f.Name()
+				}
+			}
+			r.Count("results of the identifier formatters of the other languages", 1)
+			r.Check(last != "", "skeleton/escape-last", lang+"."+name+" result", rs.Pos(), "the last transformation is the reserved-word escape ("+last+")",
+				fmt.Sprintf("%s.%s returns %s: the reserved-word test is not the last transformation, so the text that is written can be a reserved word again (`Class` → `class`): the generated code does not compile while the run succeeds", lang, name, exprString(rs.Results[0])))
+			return true
+		})
+	}
+}
+
+// c02GoQualifiedIdentifiers: formatRef / formatType return a possibly package-qualified name (`common.Person`). Gluing
+// a prefix in front of such a text ("New" + …, fmt.Sprintf("New%s", …)) qualifies the wrong thing: `Newcommon.Person()`
+// parses, passes goimports and does not compile. A derived identifier must be built from the bare object name and
+// qualified afterwards.
+func c02GoQualifiedIdentifiers(ctx *Ctx, r *Report) {
+	p := ctx.Pkg("internal/jennies/golang")
+	if p == nil {
+		return
+	}
+	info := p.TypesInfo
+	qualified := func(e ast.Expr) string {
+		found := ""
+		ast.Inspect(e, func(q ast.Node) bool {
+			if c, ok := q.(*ast.CallExpr); ok {
+				if fn := callee(info, c); fn != nil && fn.Pkg() == p.Types {
+					switch fn.Name() {
+					case "formatRef", "formatType", "doFormatType", "formatTypeDeclaration":
+						if found == "" {
+							found = fn.Name()
+						}
+					}
+				}
+			}
+			return true
+		})
+		return found
+	}
+	n := 0
+	ctxFunc := ""
+	for _, file := range p.Syntax {
+		ast.Inspect(file, func(m ast.Node) bool {
+			if fd, ok := m.(*ast.FuncDecl); ok {
+				ctxFunc = fd.Name.Name
+			}
+			switch x := m.(type) {
+			case *ast.BinaryExpr:
+				// "Prefix" + <qualified>
+				if x.Op != token.ADD {
+					return true
+				}
+				lit, ok := ast.Unparen(x.X).(*ast.BasicLit)
+				if !ok || lit.Kind != token.STRING {
+					return true
+				}
+				v := ""
+				if tv, ok := info.Types[lit]; ok && tv.Value != nil && tv.Value.Kind() == constant.String {
+					v = constant.StringVal(tv.Value)
+				}
+				if v == "" || !isIdentTail(v) {
+					return true
+				}
+				if q := qualified(x.Y); q != "" {
+					n++
+					r.Bad("skeleton/go-qualified-identifier", fmt.Sprintf("golang.%s prefixes %s", ctxFunc, q), x.Pos(),
+						fmt.Sprintf("golang.%s glues %s in front of the result of %s, which is package-qualified for objects of another package: `%s` + `common.Person` is `%scommon.Person` — it parses, goimports accepts it, and the package does not compile", ctxFunc, lit.Value, q, v, v))
+				}
+			case *ast.CallExpr:
+				fn := callee(info, x)
+				if fn == nil || fn.FullName() != "fmt.Sprintf" || len(x.Args) < 2 {
+					return true
+				}
+				lit, ok := ast.Unparen(x.Args[0]).(*ast.BasicLit)
+				if !ok {
+					return true
+				}
+				format := ""
+				if tv, ok := info.Types[lit]; ok && tv.Value != nil && tv.Value.Kind() == constant.String {
+					format = constant.StringVal(tv.Value)
+				}
+				// verbs in order; the text right before each
+				idx := 0
+				for i := 0; i < len(format); i++ {
+					if format[i] != '%' || i+1 >= len(format) {
+						continue
+					}
+					j := i + 1
+					argIdx := idx
+					if format[j] == '[' {
+						k := strings.IndexByte(format[j:], ']')
+						if k > 0 {
+							fmt.Sscanf(format[j+1:j+k], "%d", &argIdx)
+							argIdx--
+							j += k + 1
+						}
+					}
+					if j >= len(format) {
+						break
+					}
+					if format[j] == '%' {
+						i = j
+						continue
+					}
+					idx = argIdx + 1
+					if i > 0 && isIdentChar(format[i-1]) && argIdx+1 < len(x.Args) {
+						if q := qualified(x.Args[argIdx+1]); q != "" {
+							n++
+							r.Bad("skeleton/go-qualified-identifier", fmt.Sprintf("golang.%s prefixes %s", ctxFunc, q), x.Pos(),
+								fmt.Sprintf("golang.%s writes the result of %s right after identifier characters (format %s): for an object of another package the result is `pkg.Name` and the emitted identifier becomes `…pkg.Name` — it parses, goimports accepts it, and the package does not compile", ctxFunc, q, lit.Value))
+						}
+					}
+					i = j
+				}
+			}
+			return true
+		})
+	}
+	r.Count("identifiers glued to a package-qualified name in the Go jenny", n)
+	if n == 0 {
+		r.OK("skeleton/go-qualified-identifier", "golang jenny", token.NoPos, "no identifier is built by prefixing a package-qualified name")
+	}
+}
+
+func isIdentChar(c byte) bool {
+	return c == '_' || c >= '0' && c <= '9' || c >= 'a' && c <= 'z' || c >= 'A' && c <= 'Z'
+}
+
+func isIdentTail(s string) bool { return s != "" && isIdentChar(s[len(s)-1]) }
